@@ -313,8 +313,17 @@ def _run(chk):
             cols = ['x', 'y', 'z'][:c['ndim']][::-1]
             dfs = [pd.DataFrame({**{cc: f[:, i] for i, cc in enumerate(cols)}, 'frame': t}) for f, t in zip(typed(c, c['frames']), c['tags'])]
             try:
-                outs = list(NullPredict().link_df_iter(dfs, linkgen.sr_float(c['sr']), memory=c['memory'], pos_columns=cols, link_strategy=c['strategy']))
-                labs = [[int(x) for x in o['particle'].values] for o in outs]
+                from trackpy.linking.utils import SubnetOversizeException
+                labs = []
+                try:
+                    for o in NullPredict().link_df_iter(dfs, linkgen.sr_float(c['sr']), memory=c['memory'], pos_columns=cols, link_strategy=c['strategy']):
+                        labs.append([int(x) for x in o['particle'].values])
+                except SubnetOversizeException:
+                    # a legitimate outcome: an equal-cost tie resolved differently in an earlier step leads to another history, in
+                    # which a group may exceed the (lowered) size limit.  The monitor decides from the labels handed out so far
+                    # whether the raise is justified at this step (as for every link_iter run)
+                    labs.append(None)
+                    chk.tally('NullPredict run raised SubnetOversizeException (judged by the monitor)')
                 t_null.append("(%s, %s, %s)" % (head, linkgen.cframes(c['frames'], 4), linkgen.cobs(labs)))
                 m_null.append((c, labs))
             except Exception as e:
